@@ -105,6 +105,10 @@ pub struct FairQueue<S, K: Clone> {
     inner: Arc<Mutex<QueueInner<S, K>>>,
     on_stream_end: Option<Box<dyn Fn(&K, u64) + Send + Sync>>,
     last_conn: u64,
+    /// Items handed out since `poll_next` last answered `Pending`
+    served_since_pending: usize,
+    /// Where the next round of asking the waiting streams again starts
+    reask_turn: usize,
 }
 
 #[derive(Clone)]
@@ -166,6 +170,40 @@ where
     #[allow(clippy::needless_continue)]
     fn poll_next(self: Pin<&mut Self>, cx: &mut Context<'_>) -> Poll<Option<Self::Item>> {
         let fair_queue = self.get_mut();
+        {
+            // A stream that answered Pending may be waiting for a wake-up that only comes once
+            // this task has given control back: a runtime's cooperative budget refuses reads
+            // and defers their wake-ups until then, and on a single-threaded runtime nothing
+            // becomes ready while the task runs. A receiver that is called back to back and
+            // always finds a buffered message of some other peer never gives control back by
+            // itself, and those peers would wait for as long as the others have anything
+            // buffered. So after a round of deliveries with some stream waiting: yield once,
+            // and ask the waiting streams again afterwards (a deferred wake-up may take the
+            // runtime much longer than the refused read takes to become possible again).
+            let mut inner = fair_queue.inner.lock();
+            if fair_queue.served_since_pending > inner.streams.len()
+                && inner.queued.len() < inner.streams.len()
+            {
+                let mut waiting: Vec<K> = inner
+                    .streams
+                    .keys()
+                    .filter(|key| !inner.queued.contains_key(key))
+                    .cloned()
+                    .collect();
+                // (not always in the same order: the budget may not reach all of them)
+                let turn = fair_queue.reask_turn % waiting.len();
+                waiting.rotate_left(turn);
+                fair_queue.reask_turn = fair_queue.reask_turn.wrapping_add(1);
+                for key in waiting {
+                    let priority = inner.counter.fetch_add(1, atomic::Ordering::Relaxed);
+                    inner.push_event(ReadyEvent { priority, key });
+                }
+                drop(inner);
+                fair_queue.served_since_pending = 0;
+                cx.waker().wake_by_ref();
+                return Poll::Pending;
+            }
+        }
         let mut pending_polls = 0;
         loop {
             let (event, conn, mut io_stream) = {
@@ -174,6 +212,7 @@ where
                 let event = match inner.pop_event() {
                     Some(s) => s,
                     None => {
+                        fair_queue.served_since_pending = 0;
                         return if !inner.streams.is_empty() || fair_queue.block_on_no_clients {
                             Poll::Pending
                         } else {
@@ -212,6 +251,7 @@ where
                     inner.put_back(event.key, conn, io_stream);
                     drop(inner);
                     fair_queue.last_conn = conn;
+                    fair_queue.served_since_pending += 1;
                     return Poll::Ready(item);
                 }
                 Poll::Ready(None) => {
@@ -238,6 +278,7 @@ where
                         if more {
                             cx.waker().wake_by_ref();
                         }
+                        fair_queue.served_since_pending = 0;
                         return Poll::Pending;
                     }
                     continue;
@@ -253,6 +294,8 @@ impl<S, K: Clone> FairQueue<S, K> {
             block_on_no_clients,
             on_stream_end: None,
             last_conn: 0,
+            served_since_pending: 0,
+            reask_turn: 0,
             inner: Arc::new(Mutex::new(QueueInner {
                 counter: atomic::AtomicUsize::new(0),
                 ready_queue: BinaryHeap::new(),
